@@ -156,7 +156,7 @@ def structured_program(sid, rng, mbc=None, steps=None):
     subs = []          # (label, body bytes)
     nsnip = rng.randint(4, 14)
     for si in range(nsnip):
-        k = rng.randrange(13)
+        k = rng.randrange(15)
         if mbc and rng.randrange(3) == 0: k = 8
         if k == 0:
             for _ in range(rng.randint(1, 8)): a.emit(*alu_op(rng))
@@ -216,6 +216,15 @@ def structured_program(sid, rng, mbc=None, steps=None):
         elif k == 10:                                                 # read device registers into memory
             for reg in rng.sample([0x04, 0x05, 0x0F, 0x44, 0x41, 0x00, 0xFF, 0x07], 3):
                 a.emit(0xF0, reg, 0xEA); a.word(0xC110 + reg % 16)
+        elif k in (13, 14):                                           # the same block run repeatedly while what it reads changes
+            a.emit(0x06, rng.randint(2, 5)); a.emit(0x21); a.word(rng.choice([0xC140, 0xC180, 0xFFB0])); lab = "R%d" % si; a.label(lab)
+            src = rng.randrange(4)
+            if src == 0:   a.emit(0xF0, rng.choice([0x04, 0x05, 0x44, 0x41, 0x0F]))           # a device register
+            elif src == 1: a.emit(0xFA); a.word(rng.choice([0xC140, 0xC141, 0xFFB0]))          # a cell the loop itself rewrites
+            elif src == 2: a.emit(0xFA); a.word(rng.choice([0x0150, 0x0104, 0x3FFF, 0x4000, 0x4001, 0x7FFF]))   # ROM as data
+            else:          a.emit(0xF0, 0x00)                                                  # the joypad
+            a.emit(0x80, 0x22)                                                                 # ADD A,B ; LD (HL+),A
+            a.emit(0x05); a.jr(0x20, lab)
         elif k == 11:                                                 # conditional forward branch
             lab = "F%d" % si
             if rng.randrange(2): a.jr(rng.choice([0x20, 0x28, 0x30, 0x38, 0x18]), lab)
